@@ -606,7 +606,7 @@ def _wmpt_ops(events):
         elif op == "gcbegin":
             ops.append(dict(op="gc"))
         elif op in ("reload", "readroot", "owners", "saveroot"):
-            ops.append(dict(op=op))
+            ops.append(dict(op=op, level=e.get("level", 0)))
         elif op == "rolledback":
             ops.append(dict(op=e["how"]))
     r = ([e for e in events if e["op"] == "reset"] or [{}])[0]
